@@ -155,7 +155,14 @@ def landscape_case(case, ctx):
     fig, a1, a2, target = setup_axes(case["axmode"])
     kw = {} if dr is None else {"depth_range": range(dr[0], dr[1])}
     ctx.trans()
-    plot_landscape_simple(L, ax=target, title="LT", labels=["xx", "yy"], **kw)
+    # every other case hands over a landscape built with compute=False: the plot is then the first thing that
+    # needs the critical points / sampled values (L stays the reference)
+    Lp = L
+    if (case["dgm"] + case["depths"]) % 2 == 1:
+        Lp = (PersLandscapeExact(dgms=[A], hom_deg=0, compute=False) if case["cls"] == "exact"
+              else PersLandscapeApprox(dgms=[A], hom_deg=0, num_steps=41, compute=False))
+        ctx.nontriv("deferred_landscape_plotted")
+    plot_landscape_simple(Lp, ax=target, title="LT", labels=["xx", "yy"], **kw)
     ax = target if target is not None else a1
     ex = {"diagram": D, "class": case["cls"], "depth_range": dr, "axmode": case["axmode"]}
     ctx.state((case["dgm"], case["cls"], case["depths"], case["axmode"]))
